@@ -128,14 +128,18 @@ PROPS["C01"] = dict(
 
 PROPS["C13"] = dict(
     level="proof",
-    verus=["c13_redirect", "c04_partition", "c18_gate", "c05_optimizer"],
+    verus=["c13_redirect", "c04_partition", "c18_gate", "c05_optimizer", "c13_store"],
     labels=["C13.", "C04.new.redirects", "C04.new.filters", "C06.add_filter.", "C18.perm.is_default", "C05.select."] + MASK,
     kani=[],
+    witness=["c13_store.rs"],
     trusted=["memchr::memrchr = last occurrence (shim)", "<i32 as FromStr>::from_str uninterpreted", "[T]::contains = membership",
-             "name/alias lookup and data-URL formatting in ResourceStorage are uninterpreted / lifted"],
+             "data-URL formatting in ResourceStorage is lifted; the name/alias lookup is uninterpreted in the gate proof (unit c18_gate) and under contract in unit c13_store (get_internal_resource: by name, else through the alias; HashMap<String,_>::get(&str) = lookup by text)",
+             "resource store (unit c13_store): the content validation at the head of add_resource (base64 / utf-8 / dependency support) is a lifted function of the resource alone (R6); once(&name).chain(aliases.iter()) and the caller's IntoIterator are materialised (R5); `.unwrap_or_else(|_e| ..)` on Result<(), _> drops the error (R6); String values are their text"],
     assumptions=[],
     level_text="Verus proves the redirect selection block: the chosen option is a non-excepted matching redirect rule of maximal priority, priority = integer suffix after the last ':' (else 0), "
-               "resource name = text before it; and that redirect rules are filed in the redirect list and block only with the redirect (not redirect-rule) option",
+               "resource name = text before it; and that redirect rules are filed in the redirect list and block only with the redirect (not redirect-rule) option; "
+               "for the resource store: add_resource either fails and changes nothing or adds exactly the resource and its aliases (refused exactly on invalid content or a taken identifier), every alias belongs to a loaded resource that lists it (invariant), "
+               "from_resources is the left fold of add_resource over an empty store, Engine::use_resources replaces the engine's store by it and Engine::add_resource is add_resource on it; a lookup answers by name, else through the alias",
     level_note="exception cancellation compares whole option strings (as the code does; see DESIGN)",
     design_ref="DESIGN.md section 4, C13",
 )
@@ -163,8 +167,8 @@ PROPS["C10"] = dict(
 
 PROPS["C18"] = dict(
     level="proof",
-    verus=["c18_gate", "c18_stringify", "c16_resources", "c18_args", "c11_cosmetic_parse"],
-    labels=["C18.", "C13.redirect_resource.", "C13.kind.", "C16.resources.", "C16.cosmetic.parse.", "C11.cosmetic.parse.safety"],
+    verus=["c18_gate", "c18_stringify", "c16_resources", "c18_args", "c11_cosmetic_parse", "c13_store"],
+    labels=["C18.", "C13.redirect_resource.", "C13.kind.", "C16.resources.", "C16.cosmetic.parse.", "C11.cosmetic.parse.safety", "C13.store.", "C13.engine."],
     kani=[KaniSet("src/resources/mod.rs", "c18_perm.rs", [
         Harness("c18_perm_subset", "C18.perm.subset", "C", "all 256x256 pairs; loop over the 8 bit positions fully unwound"),
         Harness("c18_perm_default", "C18.perm.default", "C", "all u8 x u8, loop-free"),
@@ -206,7 +210,7 @@ PROPS["C05"] = dict(
 
 PROPS["C12"] = dict(
     level="proof",
-    verus=["c12_request", "c12_userinfo", "c12_domain", "c04_precedence", "c12_offsets"],
+    verus=["c12_request", "c12_userinfo", "c12_domain", "c04_precedence", "c12_offsets", "c12_classify"],
     labels=["C12.", "C03.request.", "C04.check.unsupported"],
     kani=[KaniSet("src/request.rs", "c03_request.rs", [
         Harness("c03_request_classify", "C03.request.classify", "C", "every (type alias, scheme, party) of the 24-entry alias table x 9 schemes; string loops bounded by the longest literal (unwind 20, unwinding assertions on)"),
